@@ -56,7 +56,7 @@ func main() {
 			runtime.GOMAXPROCS(1)
 		},
 		Families: func(tier string) []*core.Family {
-			return append(partAFamilies(tier), partBFamilies(tier)...)
+			return append(append(partAFamilies(tier), schedFamilies(tier)...), partBFamilies(tier)...)
 		},
 	})
 }
